@@ -333,6 +333,16 @@ func genC07(rt *rapid.T) c07Case {
 			edit := "none"
 			if g.n("edit", 100) < 65 {
 				edit = g.mutate(doc, top)
+				// sometimes a second and third edit on the same document (e.g. a field dropped AND unknown fields added)
+				for k := 0; k < 2 && g.n("moreedits", 100) < 35; k++ {
+					if e2 := g.mutate(doc, top); e2 != "none" {
+						if edit == "none" {
+							edit = e2
+						} else {
+							edit += "+" + e2
+						}
+					}
+				}
 			}
 			var rq c07Req
 			rq.Kind, rq.Edit = kind, edit
@@ -440,6 +450,9 @@ func (g *c07Gen) mutate(doc map[string]interface{}, d c07Def) string {
 		return "none"
 	case 3:
 		doc["unknown_extra"] = "x"
+		for k, ne := 0, g.n("nextra", 5); k < ne; k++ {
+			doc[fmt.Sprintf("unknown_%d", k)] = []interface{}{"y", float64(k), true, nil, "z"}[k]
+		}
 		return "extra-field"
 	case 4: // violation nested in a list element or a sub-object
 		for _, ff := range d.Fields {
@@ -689,6 +702,10 @@ func runC07(c c07Case) evid.Outcome {
 		}
 		ran := resp.Status == 200 && strings.Contains(resp.Body, `"ran":true`)
 
+		editLabel := rq.Edit
+		if strings.Contains(editLabel, "+") {
+			editLabel = "several-edits"
+		}
 		switch rq.Kind {
 		case "input":
 			var doc interface{}
@@ -709,7 +726,7 @@ func runC07(c c07Case) evid.Outcome {
 			}
 			switch verdict {
 			case vReject:
-				labels["input:must-reject:"+rq.Edit] = true
+				labels["input:must-reject:"+editLabel] = true
 				nontrivial = true
 				if ran {
 					return evid.Failf("c07.body-ran-on-violating-input", "%s\n--- the declared input type is violated, yet the body ran ---\n%s", where, src)
@@ -718,7 +735,7 @@ func runC07(c c07Case) evid.Outcome {
 					return evid.Failf("c07.violating-input-not-4xx", "%s\n%s", where, src)
 				}
 			case vAccept:
-				labels["input:must-accept:"+rq.Edit] = true
+				labels["input:must-accept:"+editLabel] = true
 				if !ran {
 					return evid.Failf("c07.conforming-input-rejected", "%s\n--- the document conforms to the declared type ---\n%s", where, src)
 				}
@@ -737,9 +754,39 @@ func runC07(c c07Case) evid.Outcome {
 					}
 				}
 			default:
-				labels["input:unspecified:"+rq.Edit] = true
+				labels["input:unspecified:"+editLabel] = true
 				if resp.Status >= 500 {
 					return evid.Failf("c07.5xx-on-unspecified-input", "%s\n%s", where, src)
+				}
+				// Unknown extra fields: whether they are accepted is not stated. But if the body ran, what it
+				// saw in the DECLARED fields is stated: the document's values, defaults exactly at absent ones.
+				if m, ok := doc.(map[string]interface{}); ok && isDoc && ran {
+					declared := map[string]interface{}{}
+					for _, f := range top.Fields {
+						if v, present := m[f.Name]; present {
+							declared[f.Name] = v
+						}
+					}
+					if len(declared) != len(m) && conformsObj(declared, top, c.Defs) == vAccept {
+						want := withDefaults(declared, top)
+						var got struct {
+							Echo map[string]interface{} `json:"echo"`
+						}
+						json.Unmarshal([]byte(resp.Body), &got)
+						seen := map[string]interface{}{}
+						for _, f := range top.Fields {
+							if v, present := got.Echo[f.Name]; present {
+								seen[f.Name] = v
+							}
+						}
+						if showJSONv(seen) != showJSONv(want) {
+							return evid.Failf("c07.defaults-not-applied-exactly", "%s\n  body saw (declared fields): %s\n  expected:                   %s (defaults exactly at absent fields; the document also has undeclared fields)\n%s", where, showJSONv(seen), showJSONv(want), src)
+						}
+						if len(want) != len(declared) {
+							labels["input:default-applied-beside-extra-fields"] = true
+							nontrivial = true
+						}
+					}
 				}
 			}
 		case "ret":
@@ -752,13 +799,13 @@ func runC07(c c07Case) evid.Outcome {
 			}
 			switch verdict {
 			case vReject:
-				labels["return:must-reject:"+rq.Edit] = true
+				labels["return:must-reject:"+editLabel] = true
 				nontrivial = true
 				if resp.Status < 500 {
 					return evid.Failf("c07.bad-return-value-delivered", "%s\n--- the returned value violates the declared return type, the client must get a 5xx ---\n%s", where, src)
 				}
 			case vAccept:
-				labels["return:must-accept:"+rq.Edit] = true
+				labels["return:must-accept:"+editLabel] = true
 				if resp.Status != 200 {
 					return evid.Failf("c07.conforming-return-rejected", "%s\n%s", where, src)
 				}
